@@ -326,7 +326,7 @@ def tri_case(draw):
             V0, F0 = G.op_triangulate_all(*G.grid(2, 3), 0)
             s = {"V": [[float(v[0]), float(v[1]), 0.0] for v in V0], "F": [list(f) for f in F0], "tags": ["base=grid-fallback"] + G.tags_of(V0, F0)}
     V, F, tags = [list(map(float, v)) for v in s["V"]], [list(map(int, f)) for f in s["F"]], list(s["tags"])
-    nsub = draw(st.sampled_from([0] * 10 + [1, 1, 2]))
+    nsub = draw(st.sampled_from([0] * 8 + [1, 1, 1, 2]))
     for _ in range(nsub):
         if 4 * len(F) <= 600:
             V, F = midpoint_subdivide(V, F)
@@ -803,10 +803,10 @@ def self_test():
 
 
 SUBCHECKS = [
-    SubCheck("surface_operators", tri_case(), fn_surface, quick=3000, thorough=4000),
-    SubCheck("volume_operators", tet_case(), fn_volume, quick=1500, thorough=2500),
-    SubCheck("graph_operators", graph_case(), fn_graph, quick=3000, thorough=5000),
-    SubCheck("polygon_graph_operators", polygon_case(), fn_polygon, quick=1500, thorough=2500),
+    SubCheck("surface_operators", tri_case(), fn_surface, quick=2400, thorough=4000),
+    SubCheck("volume_operators", tet_case(), fn_volume, quick=1200, thorough=2500),
+    SubCheck("graph_operators", graph_case(), fn_graph, quick=2400, thorough=5000),
+    SubCheck("polygon_graph_operators", polygon_case(), fn_polygon, quick=1200, thorough=2500),
 ]
 
 MATCHERS = {}
